@@ -18,7 +18,7 @@ from .expr import Placement, Renderer, rect_cells, refs_of, walk
 FILES = ['a.xlsx', 'b.xlsx', 'c.xlsx', 'Book2.xlsx', 'DATA.XLSX', 'my book.xlsx',
          'x1.xlsx', 'Zeta.xlsx']
 SHEETS = ['S1', 'Data', 'my sheet', 'B 2', 'Sheet3', 'x_y', 'Calc', 'T-1',
-          'alpha', 'Q4 2020', 'Growth %', '50% plan']
+          'alpha', 'Q4 2020', 'Growth %', '50% plan', "It's", "Bob's data"]
 NAMES = ['NAME_A', 'RATE', 'Total_x', 'kappa', 'NAME_B', 'Zed', 'my_name',
          'LIMIT']
 
